@@ -12,9 +12,10 @@ from pyasn1.codec.der import encoder as der_enc
 
 PROPERTY = 'C17'
 LEVEL = 'exploration'
-RULE = ('E1 exhaustive: every (type, value) of universe slices LEAF, REC(stride 2 quick), OF, CH, NEST, TAGS(depth<=1): '
+RULE = ('E1 exhaustive: every (type, value) of universe slices LEAF, BIG, REC(stride 2 quick), OF, CH, NEST, TAGS(depth<=1): '
         '(1) native.decode(native.encode(obj), asn1Spec=T) has the same abstract content (REAL compared as floats, '
-        'rel 1e-12); (2) for each of BER, CER, DER: encode(plain Python tree, asn1Spec=T) == encode(value object), '
+        'rel 1e-12); (2) for each of BER (definite; indefinite; maxChunkSize=2; indefinite+maxChunkSize=1), CER, DER: '
+        'encode(plain Python tree, asn1Spec=T, **opts) == encode(value object, **opts), '
         'OPTIONAL members absent from the mapping (types containing ANY excluded for this path). Non-trivial = '
         'constructed type or boundary value; distinct = digest of (T, v, clause, codec).')
 ASSUMPTIONS = [
@@ -22,7 +23,10 @@ ASSUMPTIONS = [
     'SEQUENCE OF/SET OF, scalars as documented constructor arguments, binary string for BIT STRING',
     'CPython 3.12, PYTHONHASHSEED=0',
 ]
-ENCODERS = (('ber', ber_enc.encode), ('cer', cer_enc.encode), ('der', der_enc.encode))
+ENCODERS = (('ber', ber_enc.encode, {}), ('cer', cer_enc.encode, {}), ('der', der_enc.encode, {}),
+            ('ber/indef', ber_enc.encode, {'defMode': False}),
+            ('ber/chunk2', ber_enc.encode, {'maxChunkSize': 2}),
+            ('ber/indef+chunk1', ber_enc.encode, {'defMode': False, 'maxChunkSize': 1}))
 
 
 def float_equal(T, a, b):
@@ -128,7 +132,9 @@ def check_case(idx, sl, T, v, R):
     if 'any' in feats0:
         return
     tree = B.py_tree(T, v)
-    for ename, enc in ENCODERS:
+    for ename, enc, opts in ENCODERS:
+        if 'chunk' in ename and not U.has_string(T):
+            continue
         R.evaluations += 1
         R.nontrivial((T, M.freeze(v), 'pyvalue', ename))
         feats = feats0 | {'pyvalue', 'enc:' + ename}
@@ -141,12 +147,12 @@ def check_case(idx, sl, T, v, R):
         if default_constructed_equal(T, v):
             feats.add('default_constructed_equal')
         try:
-            ref = enc(B.build(T, v, spec))
+            ref = enc(B.build(T, v, spec), **opts)
         except Exception:
             R.features['pyvalue.object_path_fails'] += 1      # C01-C03 report encoder failures
             continue
         try:
-            got = enc(tree, asn1Spec=spec)
+            got = enc(tree, asn1Spec=spec, **opts)
         except Exception as e:
             R.violation('pyvalue.error', dict(rec, enc=ename, tree=repr(tree)), exc_text(e) + ' for %r' % (tree,),
                         ref[:40].hex(), pyasn1_site(e), feats, idx)
@@ -242,7 +248,7 @@ def default_constructed_equal(T, v):
 
 def cases(tier):
     idx = -1
-    for sl in ('LEAF', 'REC', 'OF', 'CH', 'NEST', 'TAGS'):
+    for sl in ('LEAF', 'BIG', 'REC', 'OF', 'CH', 'NEST', 'TAGS'):
         k = -1
         for T, v in U.SLICES[sl](tier):
             k += 1
